@@ -34,7 +34,7 @@ ASSUMPTIONS = ["dt >= dt_min (the user-chosen first trial is not a controller pr
 REQUIRED_COUNTERS = ["trials", "rejected", "accepted", "dt_min_clamped_trials", "injected_cases", "natural_cases",
                      "error_recomputed", "interpolated_outputs", "float32_cases", "clipped_final_trials", "grad_enabled_runs",
                      "extra_state_solver_runs", "adjoint_entry_runs", "backward_adaptive_solves", "backward_trials",
-                     "backward_rejected"]
+                     "backward_rejected", "float64_times_float32_state", "tensor_dt_and_dt_min"]
 THRESHOLDS = {"error_recompute_rel": 1e-12}
 
 SOLVERS = [("ito", "euler", "additive"), ("ito", "milstein", "diagonal"), ("ito", "srk", "diagonal"),
@@ -113,7 +113,8 @@ def _same(x, y):
     return False
 
 
-def check_trace(steps, errors, updates, t_start, t_end, dt, dt_min, rtol, atol, dtype, ctx, viol, cnt, mx, scale):
+def check_trace(steps, errors, updates, t_start, t_end, dt, dt_min, rtol, atol, dtype, ctx, viol, cnt, mx, scale,
+                tdtype=None):
     """Reference model of the controller's contract against the trace of ONE solver.integrate call over
     [t_start, t_end] (see the module docstring). Returns the accepted steps [(t0, t1, y0, y1)] or None."""
     same = _same
@@ -125,7 +126,7 @@ def check_trace(steps, errors, updates, t_start, t_end, dt, dt_min, rtol, atol, 
         return None
     extra_cur = steps[0]["extra0"] if steps else ()
     cnt["extra_state_solver_runs"] = max(cnt.get("extra_state_solver_runs", 0), int(len(extra_cur) > 0))
-    ulp = (1.2e-7 if dtype == torch.float32 else 2.3e-16) * max(1.0, scale)
+    ulp = (1.2e-7 if (tdtype or dtype) == torch.float32 else 2.3e-16) * max(1.0, scale)  # of the TIME arithmetic
     accepted = []  # (t0, t1, y0, y1)
     cur = t_start
     step_size = float(dt)
@@ -261,8 +262,20 @@ def run_case(case):
     sigma = rng.choice([0.1, 0.5])
     sde = Stiff(nt, st, d, k, sigma)
     nout = rng.choice([2, 3, 6])
+    # float32 state with the times given as a float64 tensor (time arithmetic is then done in float64, also far from zero)
+    ts_dtype = dtype
+    if dtype == torch.float32 and rng.random() < 0.5:
+        ts_dtype = torch.float64
+        if rng.random() < 0.5:
+            t0 = 5000.0
+        cnt["float64_times_float32_state"] = 1
     tsl = [t0] + sorted(t0 + T * rng.uniform(0.05, 0.95) for _ in range(nout - 2)) + [t0 + T]
-    ts = torch.tensor(tsl, dtype=dtype)
+    ts = torch.tensor(tsl, dtype=ts_dtype)
+    # dt / dt_min may be handed over as 0-d tensors (a legal Scalar); the caller's tensors must come back unchanged
+    tensor_steps = rng.random() < 0.3
+    cnt["tensor_dt_and_dt_min"] = int(tensor_steps)
+    dt_arg = torch.tensor(dt, dtype=torch.float64) if tensor_steps else dt
+    dt_min_arg = torch.tensor(dt_min, dtype=torch.float64) if tensor_steps else dt_min
     y0 = torch.randn(B, d, dtype=dtype, generator=torch.Generator().manual_seed(case["rseed"]))
     bm = torchsde.BrownianInterval(t0=float(ts[0]), t1=float(ts[-1]), size=(B, sde.m), dtype=dtype,
                                    entropy=rng.randrange(1, 10 ** 9), levy_area_approximation=zoo.levy_for(method))
@@ -274,8 +287,8 @@ def run_case(case):
     entry = rng.choice(["sdeint", "sdeint", "sdeint_adjoint"])
     adj_rtol, adj_atol = rtol * rng.choice([0.1, 10.0, 100.0]), atol * rng.choice([0.1, 10.0, 100.0])
     adj_adaptive = entry == "sdeint_adjoint" and not injected and T / dt_min <= 2000 and rng.random() < 0.6
-    ctx = (f"{st}/{method}/{nt} k={k} dt={dt} dt_min={dt_min} rtol={rtol} atol={atol} dtype={dtype} ts={tsl} "
-           f"schedule={script_name} entry={entry}"
+    ctx = (f"{st}/{method}/{nt} k={k} dt={dt} dt_min={dt_min} rtol={rtol} atol={atol} dtype={dtype} ts_dtype={ts_dtype} "
+           f"tensor_dt={tensor_steps} ts={tsl} schedule={script_name} entry={entry}"
            + (f" adjoint_rtol={adj_rtol} adjoint_atol={adj_atol} adjoint_adaptive={adj_adaptive}"
               if entry == "sdeint_adjoint" else ""))
     bound = int(3 * (T / dt_min) + 100)
@@ -300,13 +313,13 @@ def run_case(case):
             warnings.simplefilter("always")
             if entry == "sdeint":
                 with torch.set_grad_enabled(use_grad):
-                    ys = torchsde.sdeint(sde, y0, ts, bm=rec, method=method, dt=dt, adaptive=True, rtol=rtol,
-                                         atol=atol, dt_min=dt_min)
+                    ys = torchsde.sdeint(sde, y0, ts, bm=rec, method=method, dt=dt_arg, adaptive=True, rtol=rtol,
+                                         atol=atol, dt_min=dt_min_arg)
             else:
                 cnt["adjoint_entry_runs"] = 1
                 y0 = y0.requires_grad_(True)
-                ys = torchsde.sdeint_adjoint(sde, y0, ts, bm=rec, method=method, dt=dt, adaptive=True, rtol=rtol,
-                                             atol=atol, dt_min=dt_min, adjoint_rtol=adj_rtol, adjoint_atol=adj_atol,
+                ys = torchsde.sdeint_adjoint(sde, y0, ts, bm=rec, method=method, dt=dt_arg, adaptive=True, rtol=rtol,
+                                             atol=atol, dt_min=dt_min_arg, adjoint_rtol=adj_rtol, adjoint_atol=adj_atol,
                                              adjoint_adaptive=adj_adaptive)
                 n_fwd = (len(pr.steps), len(pr.errors), len(pr.updates), len(rec.log), len(pr.integrate_calls))
                 if adj_adaptive:
@@ -331,6 +344,9 @@ def run_case(case):
     if blown:
         return {"violations": [], "counters": {"blown_up_runs": 1}, "nontrivial": False}
 
+    if tensor_steps and (float(dt_arg) != dt or float(dt_min_arg) != dt_min):
+        viol.append({"mechanism": "caller_step_size_tensor_modified",
+                     "detail": f"dt {dt} -> {float(dt_arg)!r}, dt_min {dt_min} -> {float(dt_min_arg)!r} {ctx}"})
     steps, errors, updates = pr.steps, pr.errors, pr.updates
     n_log = len(rec.log)
     if entry == "sdeint_adjoint":
@@ -340,7 +356,7 @@ def run_case(case):
     cnt["error_control_calls_with_grad_enabled"] = pr.grad_enabled_in_error
     t_start, t_end = float(ts[0]), float(ts[-1])
     accepted = check_trace(steps, errors, updates, t_start, t_end, dt, dt_min, rtol, atol, dtype, ctx, viol, cnt, mx,
-                           abs(t0) + T)
+                           abs(t0) + T, tdtype=ts_dtype)
     if accepted is None:
         return {"violations": viol, "counters": cnt}
     if not viol:
@@ -384,7 +400,7 @@ def run_case(case):
                 cu = pr.updates[c["updates"][0]:c["updates"][1]]
                 nv = len(viol)
                 check_trace(cs, ce, cu, float(c["ts"][0]), float(c["ts"][-1]), dt, dt_min, adj_rtol, adj_atol, dtype,
-                            ctx + " [backward pass]", viol, bc, bmx, abs(t0) + T)
+                            ctx + " [backward pass]", viol, bc, bmx, abs(t0) + T, tdtype=ts_dtype)
                 for v in viol[nv:]:
                     v["mechanism"] = "backward:" + v["mechanism"]
                 if len(viol) > nv:
